@@ -1101,4 +1101,229 @@ theorem tx_repay_in_bracket {w w' : WState} {tx : List TOp} (h : w.runTx tx = so
     · cases hst
   · cases hst
 
+/-! ### control never survives: a receiver is recorded only while the account is in receivership -/
+
+/-- a receiver is recorded although the account is NOT in receivership -/
+def strayRecv (a : AcctV) : Bool := decide (a.recReceiver ≠ 0) && !inRecv a
+
+theorem transferIx_noReceiver {g : GroupV} {a o n : AcctV} {signer newKey newAuth : Nat} {ok : Bool}
+    (h : transferIx g a signer newKey newAuth ok = .ok (o, n)) : o.recReceiver = 0 ∧ n.recReceiver = 0 := by
+  unfold transferIx at h
+  cases ht : Transfer.transfer (toMAcct a) a.key g.key g.admin 1 g.paused signer newKey newAuth (if ok = true then 1 else 2) 0 with
+  | error e => rw [ht] at h; cases h
+  | ok r =>
+    rw [ht] at h
+    obtain ⟨ro, rn⟩ := r
+    have h' : (ofMAcct a.key ro, ofMAcct newKey rn) = (o, n) := by
+      have : (Except.ok (ro, rn) : Res _).map (fun (p : Transfer.MAcct × Transfer.MAcct) => (ofMAcct a.key p.1, ofMAcct newKey p.2)) = .ok (o, n) := h
+      injection this
+    injection h' with h1 h2
+    subst h1; subst h2
+    exact ⟨rfl, rfl⟩
+
+/-- no whole instruction leaves a receiver recorded on an account that is not in receivership -/
+theorem step_noNewStray (w : WState) (op : WOp) : NoNewP strayRecv w (w.step op) :=
+  step_noNewP strayRecv (fun a slots => rfl)
+    (fun a slots hx => by
+      unfold strayRecv at hx ⊢
+      simp only [Bool.and_eq_true, Bool.not_eq_true'] at hx ⊢
+      refine ⟨hx.1, ?_⟩
+      have h1 := hx.2
+      have e : inRecv { a with slots := slots, flags := a.flags ||| ACCOUNT_DISABLED.toNat } = inRecv a := by
+        rw [inRecv_iff, inRecv_iff]
+        have : ACCOUNT_DISABLED.toNat = 1 := by decide
+        simp only [this, Nat.testBit_or]
+        have b : Nat.testBit 1 4 = false := by decide
+        simp [b]
+      rw [e] at h1; exact h1)
+    (fun _ _ _ _ _ _ _ _ h => by
+      obtain ⟨h1, h2⟩ := transferIx_noReceiver h
+      unfold strayRecv
+      simp [h1, h2]) w op
+
+/-- every account of the state: a receiver recorded means in receivership -/
+def NoStray (w : WState) : Prop := ∀ (k : Nat) (a : AcctV), w.accts[k]? = some a → strayRecv a = false
+
+theorem noStray_of_noNew {w w' : WState} (h : NoNewP strayRecv w w') (hw : NoStray w) : NoStray w' := by
+  intro k a hk
+  cases hs : strayRecv a with
+  | false => rfl
+  | true =>
+    obtain ⟨y, hy, hsy⟩ := h k a hk hs
+    rw [hw k y hy] at hsy; cases hsy
+
+theorem noStray_set {w : WState} {ai : Nat} {a a' : AcctV} (hw : NoStray w) (ha : w.accts[ai]? = some a)
+    (h : strayRecv a' = true → strayRecv a = true) : NoStray { w with accts := w.accts.set ai a' } :=
+  noStray_of_noNew (w := w) (set_noNewP (P := strayRecv) ha h) hw
+
+theorem stepIn_noStray {tx : List TOp} {i : Nat} {t : TOp} {w w' : WState} (h : w.stepIn tx i t = some w') (hw : NoStray w) : NoStray w' := by
+  cases t with
+  | ix op =>
+    simp only [WState.stepIn] at h
+    rw [step?_some h]
+    exact noStray_of_noNew (step_noNewStray w op) hw
+  | startFlash ai signer endIdx =>
+    simp only [WState.stepIn] at h
+    split at h
+    · rename_i a ha
+      split at h
+      · rename_i f hf
+        injection h with h; subst h
+        obtain ⟨_, _, _, _, _, _, _, ef⟩ := startFlashloan_ok hf
+        refine noStray_set hw ha ?_
+        intro hx
+        unfold strayRecv at hx ⊢
+        simp only [Bool.and_eq_true, Bool.not_eq_true'] at hx ⊢
+        refine ⟨hx.1, ?_⟩
+        have h1 := hx.2
+        rw [inRecv_iff] at h1 ⊢
+        simp only [ef, Nat.testBit_or] at h1
+        have e2 : ACCOUNT_IN_FLASHLOAN.toNat = 2 := by decide
+        rw [e2] at h1
+        have b : Nat.testBit 2 4 = false := by decide
+        simp [b] at h1
+        exact h1
+      · cases h
+    · cases h
+  | endFlash ai signer =>
+    simp only [WState.stepIn] at h
+    split at h
+    · rename_i a ha
+      split at h
+      · rename_i f hf
+        injection h with h; subst h
+        have ef : f = a.flags &&& (Nat.xor ACCOUNT_IN_FLASHLOAN.toNat (2 ^ 64 - 1)) := by
+          unfold endFlashloan at hf
+          obtain ⟨_, _, hf⟩ := Res.bind_ok hf
+          obtain ⟨_, _, hf⟩ := Res.bind_ok hf
+          obtain ⟨_, _, hf⟩ := Res.bind_ok hf
+          obtain ⟨_, _, hf⟩ := Res.bind_ok hf
+          obtain ⟨_, _, hf⟩ := Res.bind_ok hf
+          obtain ⟨_, _, hf⟩ := Res.bind_ok hf
+          obtain ⟨_, _, hf⟩ := Res.bind_ok hf
+          injection hf with hf
+          exact hf.symm
+        refine noStray_set hw ha ?_
+        intro hx
+        unfold strayRecv at hx ⊢
+        simp only [Bool.and_eq_true, Bool.not_eq_true'] at hx ⊢
+        refine ⟨hx.1, ?_⟩
+        have h1 := hx.2
+        rw [inRecv_iff] at h1 ⊢
+        simp only [ef, Nat.testBit_and] at h1
+        have b : Nat.testBit (Nat.xor ACCOUNT_IN_FLASHLOAN.toNat (2 ^ 64 - 1)) 4 = true := by decide
+        rw [b, Bool.and_true] at h1
+        exact h1
+      · cases h
+    · cases h
+  | startLiq ai receiver recordOk =>
+    simp only [WState.stepIn] at h
+    split at h
+    · rename_i a ha
+      split at h
+      · rename_i o ho
+        injection h with h; subst h
+        obtain ⟨_, _, _, _, efl, _⟩ := startLiquidation_ok ho
+        refine noStray_set hw ha ?_
+        intro hx
+        exfalso
+        unfold strayRecv at hx
+        simp only [Bool.and_eq_true, Bool.not_eq_true'] at hx
+        have h1 := hx.2
+        rw [inRecv_iff] at h1
+        simp only [efl, Nat.testBit_or] at h1
+        have b : Nat.testBit ACCOUNT_IN_RECEIVERSHIP.toNat 4 = true := by decide
+        simp [b] at h1
+      · cases h
+    · cases h
+  | endLiq ai signer recordOk walletOk feeMax =>
+    simp only [WState.stepIn] at h
+    split at h
+    · rename_i a ha
+      split at h
+      · rename_i o ho
+        injection h with h; subst h
+        refine noStray_set hw ha ?_
+        intro hx
+        exfalso
+        unfold strayRecv at hx
+        simp at hx
+      · cases h
+    · cases h
+  | startDelev ai signer recordOk =>
+    simp only [WState.stepIn] at h
+    split at h
+    · rename_i a ha
+      split at h
+      · rename_i o ho
+        injection h with h; subst h
+        obtain ⟨_, _, _, _, efl, _⟩ := startDeleverage_ok ho
+        refine noStray_set hw ha ?_
+        intro hx
+        exfalso
+        unfold strayRecv at hx
+        simp only [Bool.and_eq_true, Bool.not_eq_true'] at hx
+        have h1 := hx.2
+        rw [inRecv_iff] at h1
+        simp only [efl, Nat.testBit_or] at h1
+        have b : Nat.testBit ACCOUNT_IN_RECEIVERSHIP.toNat 4 = true := by decide
+        simp [b] at h1
+      · cases h
+    · cases h
+  | endDelev ai signer recordOk =>
+    simp only [WState.stepIn] at h
+    split at h
+    · rename_i a ha
+      split at h
+      · rename_i o ho
+        injection h with h; subst h
+        refine noStray_set hw ha ?_
+        intro hx
+        exfalso
+        unfold strayRecv at hx
+        simp at hx
+      · cases h
+    · cases h
+
+theorem runFrom_noStray (tx : List TOp) : ∀ (rest : List TOp) (i : Nat) (w w' : WState),
+    WState.runFrom tx i rest w = some w' → NoStray w → NoStray w' := by
+  intro rest
+  induction rest with
+  | nil => intro i w w' h hw; simp only [WState.runFrom] at h; injection h with h; subst h; exact hw
+  | cons op rest ih =>
+    intro i w w' h hw
+    simp only [WState.runFrom] at h
+    split at h
+    · rename_i w1 h1; exact ih (i + 1) w1 w' h (stepIn_noStray h1 hw)
+    · cases h
+
+/-- **control never survives a transaction**: from a state in which no account is in receivership and no record names a receiver,
+    after any sequence of transactions (committed or rolled back) no account is in receivership and no record names a receiver -/
+theorem runTxs_no_control : ∀ (txs : List (List TOp)) (w : WState),
+    (∀ (k : Nat) (a : AcctV), w.accts[k]? = some a → inRecv a = false ∧ a.recReceiver = 0) →
+    ∀ (k : Nat) (a : AcctV), (w.runTxs txs).accts[k]? = some a → inRecv a = false ∧ a.recReceiver = 0 := by
+  intro txs
+  induction txs with
+  | nil => intro w h0; exact h0
+  | cons tx rest ih =>
+    intro w h0
+    simp only [WState.runTxs]
+    apply ih
+    cases hr : w.runTx tx with
+    | none => exact h0
+    | some w1 =>
+      simp only [Option.getD_some]
+      have hrecv := runTx_noRecv hr (fun k a hk => (h0 k a hk).1)
+      have hstray : NoStray w := by
+        intro k a hk
+        unfold strayRecv
+        simp [(h0 k a hk).2]
+      have hs1 := runFrom_noStray tx tx 0 w w1 hr hstray
+      intro k a hk
+      refine ⟨hrecv k a hk, ?_⟩
+      have := hs1 k a hk
+      unfold strayRecv at this
+      rw [hrecv k a hk] at this
+      simpa using this
+
 end Mfi.World
